@@ -30,7 +30,7 @@ MANIFEST = {
         "text": ("Theorems (Props.lean, axiom-audited on every run): the lock-free ring is FIFO / hands every ticket over at most once for every capacity and thread count "
                  "(closed ring system and, by a proved simulation, the queue inside the full pool model); a worker never reads a raw slot; exactly-once / argument integrity / record lifetime (no fault) / token conservation and the "
                  "completion handshake (join after completion, result, flags, future destroyed only when unused) over all schedules of the full model; deadlock freedom of the repaired "
-                 "full model in every state with a live worker; the repaired FastSignal never loses a set and the repaired "
+                 "full model (`no_stuck`: in every reachable state with an unfinished thread some thread can step); the repaired FastSignal never loses a set and the repaired "
                  "sleep/wake protocol has no lost wake-up for any number of consumers/suppliers (abstract protocol system); negation witnesses (kernel-checked schedules) that the "
                  "ORIGINAL code deadlocks (defect D17 on the full model; D17 and the swallowed wake-up on the protocol).  Tie to the code on every run: the real thread pool "
                  "(private ThreadPool built with queue sizes 1/2/4/8 and thread limits by #including Future.cpp) is run under deviation-bounded exhaustive and random schedules; "
@@ -40,10 +40,10 @@ MANIFEST = {
         "note": ("Modelled, not verified: the hand translation of the C++ into the model (validated by the step-by-step replay, not proved); sequentially consistent atomics; the "
                  "simulated POSIX semantics (mutex, condition variable with spurious wake-ups, create/join, virtual clock) is an assumption shared by scheduler and model; scheduling "
                  "points of the implementation run are atomic operations and pthread calls only (plain volatile reads are not separately interleaved in the run, they are in the "
-                 "theorems); usize wrap-around outside.  OPEN (stated in Props.lean, not proved): `join_eventually` (weak fairness) and unconditional `no_stuck`; proved of it on the FULL model: "
-                 "`no_stuck_while_a_worker_lives` (no deadlock in any reachable state with a live worker) with its worker/producer/join/shutdown sides, token conservation, "
-                 "Signal-layer progress; missing: states without a live worker (spawn arithmetic with stale counter reads) and the fairness ranking argument; the scheduler verdict, the "
-                 "exhaustive model exploration of small configurations and the random model walks (no deadlock) are tests.  The model mirrors the REPAIRED code "
+                 "theorems); usize wrap-around outside.  OPEN (stated in Props.lean, not proved): `join_eventually` under weak fairness; proved of it on the FULL model of the repaired code: its deadlock-freedom core "
+                 "`no_stuck` (unconditional: whenever a thread is unfinished some thread can step; worker/producer/join/shutdown sides, spawn arithmetic, token conservation, "
+                 "Signal-layer progress) and the safety half `join_after_completion`; missing: the ranking argument under fairness; the scheduler verdict, the "
+                 "exhaustive model exploration of small configurations and the random model walks are tests.  The model mirrors the REPAIRED code "
                  "(fixes/future/0001-0004, fixes/sync/0001); on the unrepaired tree the check reports the defects with concrete failing schedules."),
         "design_ref": "DESIGN.md 3/C10",
     }
@@ -684,8 +684,7 @@ def check(ctx):
 
 
 OPEN_STATEMENTS = [
-    "join_eventually: under weak fairness every join of the repaired full model eventually returns (stated in Props.lean, comment block OPEN); proved instead: deadlock freedom in every state with a live worker (no_stuck_while_a_worker_lives) and its four sides, token conservation, Signal-layer progress",
-    "no_stuck (unconditional): missing the states without a live worker = spawn arithmetic over _pushedJobs/_processedJobs/_threadCount with stale reads + FIFO order, and the equality form of the terminate-job balance",
+    "join_eventually: under weak fairness every join of the repaired full model eventually returns (stated in Props.lean, comment block OPEN). Proved of it: its deadlock-freedom core `no_stuck` (unconditional) and the safety half `join_after_completion`; missing: a ranking argument under fairness (CAS retry loops, spin lock and re-check loops are lock-free, not wait-free)",
 ]
 
 
